@@ -107,7 +107,6 @@ SafeOK(r) ==
     /\ (r.err = "magic" => RefStatus(r) = "bad_magic")
     /\ r.leaked = 0
     /\ r.mem.allocMiB <= 64 + 2 * (r.conc + 3) * r.maxblockMiB + 3 * r.deliveredMiB
-    /\ (r.small /\ r.outcome = "clean" => ParseLenient(r.bytes).status \in {"ok", "empty"})
 
 \* C15 (Reader side): the source is a valid frame served with some fragmentation pattern and possibly
 \* failing at its k-th Read call (r.hit: that call was really made)
